@@ -1,7 +1,7 @@
 """C16 - a fault in one text block does not disturb the rest of the document (structural clauses)."""
 from ..report import Check
 from ..callgraph import CallGraph
-from ..rules import stack, scopes, globalstate, driver
+from ..rules import stack, scopes, globalstate, driver, routing
 from ..lexer import Lexer
 
 
@@ -15,6 +15,7 @@ def run(F, G, tier, seed):
     driver.deferred(chk, F, T)
     scopes.edge_owned_frames(chk, F)
     scopes.entry_points(chk, F)
+    routing.run_flagmono(chk, F)
     # the scanner's start condition is the one piece of lexer state that outlives a block: a label that ends
     # inside a comment must not turn the following blocks into comment text
     globalstate.run_startcond(chk, F, CG, Lexer(F))
